@@ -2,6 +2,7 @@ SPECIFICATION Spec
 CONSTANT Bug = "none"
 CONSTANT MaxDefects = 14
 CONSTANT MaxValidations = 1
+CONSTANT AllowForever = FALSE
 CONSTANT MaxPending = 1
 INVARIANT TypeOK
 INVARIANT Precedence
